@@ -274,10 +274,40 @@ fn rand_oracle(c: &Rand, obs: &mut Obs) -> Check {
     differential(&c.nodes, &c.data, &[], obs, "loop-random")
 }
 
+/// ranges whose bounds sit at the i64 limits (literal and through variables), for and tablerow
+fn limit_ranges() -> Vec<Rand> {
+    let mut v = Vec::new();
+    let marks = [i64::MAX, i64::MIN, 0];
+    for m in marks {
+        for lo_d in -3i64..=3 {
+            for hi_d in -3i64..=3 {
+                let (Some(lo), Some(hi)) = (m.checked_add(lo_d), m.checked_add(hi_d)) else { continue };
+                if hi.saturating_sub(lo) > 8 {
+                    continue;
+                }
+                for via_var in [false, true] {
+                    for table in [false, true] {
+                        let (a, b) = if via_var { (Expr::var("lo"), Expr::var("hi")) } else { (Expr::int(lo), Expr::int(hi)) };
+                        let body = vec![txt("["), out(Expr::var("i")), txt(":"), out(Expr::path(if table { "tablerow" } else { "forloop" }, &["index"])), txt("/"), out(Expr::path(if table { "tablerow" } else { "forloop" }, &["length"])), txt(if table { "" } else { "" }), txt("]")];
+                        let node = if table {
+                            Node::TableRow { var: "i".into(), coll: Coll::Range(a, b), cols: Some(Expr::int(2)), limit: None, offset: None, body, open: Tr::PLAIN, close: Tr::PLAIN }
+                        } else {
+                            Node::For { var: "i".into(), coll: Coll::Range(a, b), limit: None, offset: None, reversed: lo_d % 2 == 0, body, else_: Some((vec![txt("ELSE")], Tr::PLAIN)), open: Tr::PLAIN, close: Tr::PLAIN }
+                        };
+                        v.push(Rand { nodes: vec![txt("<"), node, txt(">")], data: obj(vec![("lo", RV::Int(lo)), ("hi", RV::Int(hi))]) });
+                    }
+                }
+            }
+        }
+    }
+    v
+}
+
 pub fn run(ctx: &Ctx) {
     ctx.set_rule("E2 cube: collection length 0..6 x offset {absent,0..8} x limit {absent,0..8} x reversed x {for, tablerow cols absent/1..4} x {array, literal range, variable-bound range, descending range, single-key object, nil} x attributes as literals / through variables, body prints the item and every forloop/tablerow field, for-else present; second cube: break/continue guarded by forloop.index == k (k 1..5) at three positions of two nested loops (n, m 0..4), guard wrapped in if / capture / case; E1: headers with n <= 40, random nested loop programs. Oracle: reference interpreter. Non-trivial = window differs from the whole collection (offset/limit/reversed) or an interrupt is present; distinct by case.");
     ctx.exhaustive("headers", 7 * 10 * 10 * 2 * 6 * 6 * 2, header_nth, header_oracle);
     ctx.exhaustive("interrupts", 5 * 5 * 2 * 3 * 5 * 3, interrupt_nth, interrupt_oracle);
+    ctx.cases("ranges_at_i64_limits", limit_ranges(), rand_oracle);
     ctx.random("big_headers", ctx.pick(150_000, 600_000), big_header, header_oracle);
     ctx.random("programs", ctx.pick(150_000, 1_000_000), rand_strategy, rand_oracle);
 }
